@@ -5,6 +5,7 @@ is_below_min_vol and initialize_random_properties run in irsym with every scalar
 decides the closed-form laws on every feasible path. (The removal statement of
 solver::run_iteration is decided in the population-level check C08/C04b.)"""
 import math
+from fractions import Fraction
 import os
 import random
 import sys
@@ -75,7 +76,7 @@ def main(chk):
                     L = S.uf('log', S.div(V, vt_out))
                     raw = S.neg(S.mul(K, L))
                     law_p = raw if pinf else S.ite(S.cmp('gt', raw, Pmax), Pmax, raw)
-                    add(key + '/pressure-law', pc, S.cmp('eq', p_out, law_p), info)
+                    add(key + '/pressure-law', pc, S.cmp('eq', p_out, law_p), dict(info, log_node=L, ratio=(V, vt_out)))
                     # eligibility: epithelial iff V >= Vdiv ; others never
                     if cls == 0 and not dinf:
                         want = S.cmp('ge', V, Vdiv)
@@ -154,6 +155,18 @@ def main(chk):
             continue
         if st == 'violated':
             rep = replay(native, info, model, nm)
+            if not rep['reproduced'] and (info or {}).get('log_node') is not None:
+                # the solver treats log as an uninterpreted function: its model may give log a value the real logarithm does not take.
+                # Look for a counterexample in which log(V/Vt') has its true value (pinned at a list of ratios)
+                V_, vt_ = info['ratio']
+                for rho in (Fraction(1, 1000), Fraction(1, 10), Fraction(1, 2), Fraction(9, 10), Fraction(1), Fraction(11, 10), Fraction(3, 2), Fraction(2), Fraction(10), Fraction(1000)):
+                    pin = [S.cmp('eq', V_, S.mul(S.const(rho), vt_)), S.cmp('eq', info['log_node'], S.const(Fraction(math.log(rho)).limit_denominator(10 ** 12)))]
+                    st2, m2 = SV.prove(z, list(pc) + pin, cl, 20000)
+                    chk.queries += 1
+                    if st2 == 'violated':
+                        rep2 = replay(native, info, m2, nm)
+                        if rep2['reproduced']:
+                            rep = rep2; model = m2; break
             chk.ob(nm, 'violated' if rep['reproduced'] else 'unknown', core, dt_, detail=rep, sample={'obligation': nm, 'model': model})
             if rep['reproduced']:
                 chk.violation('C04/' + nm.split('/')[-1], '%s: %s' % (nm, rep['what']), rep)
